@@ -2,7 +2,7 @@
    Only property statements here; each is closed by [exact] (or a two-line proof). *)
 From Coq Require Import NArith ZArith List Bool.
 From Lal Require Import Common.LBytes Common.Res Group.GroupAdmission Group.GroupAdmissionProofs Group.GroupRelayProofs
-     Group.GroupInvariantProofs Group.GroupAttemptProofs
+     Group.GroupInvariantProofs Group.GroupAttemptProofs Group.GroupApiRequest Group.GroupApiRequestProofs
      Rtmp.RtmpMsgPackerBuf Rtmp.RtmpMsgPackerBufProofs.
 Import ListNotations.
 Open Scope N_scope.
@@ -155,6 +155,69 @@ Theorem c17_url_params_refuted :
   exists app tc_url flash_ver stream, pack_seq false app tc_url flash_ver stream true = Panic site_grow_slice.
 Proof. exact pack_seq_pinned_panics. Qed.
 Print Assumptions c17_url_params_refuted.
+
+(* The HTTP API in front of the rules (pkg/logic/http_api.go).  A numeric key of a request body that is
+   present is used as given - 0 and -1 included -, one that is absent gets the documented default
+   (pull_timeout_ms 10000, pull_retry_num 0 = never, auto_stop_pull_after_no_out_ms -1 = never,
+   rtsp_mode 0 = tcp; start_rtp_pub timeout_ms 60000, port 0, is_tcp_flag 0), null is Go's zero value,
+   anything else makes the request "param missing" and nothing is called. *)
+Theorem c17_api_field_values : forall d z f v,
+  jval d (JInt z) = Some z /\ jval d JAbsent = Some d /\ jval d JNull = Some 0%Z /\ jval d JBad = None /\
+  (jval d f = Some v -> f = JAbsent /\ v = d \/ f = JNull /\ v = 0%Z \/ f = JInt v).
+Proof. intros. repeat split. apply jval_default_only_if_absent. Qed.
+Print Assumptions c17_api_field_values.
+
+Theorem c17_api_start_pull_request : forall b r, pull_request b = Some r ->
+  pb_url b = true /\
+  jval 10000 (pb_timeout b) = Some (pr_timeout r) /\ jval 0 (pb_retry b) = Some (pr_retry r) /\
+  jval (-1) (pb_autostop b) = Some (pr_autostop r) /\ jval 0 (pb_mode b) = Some (pr_mode r).
+Proof. exact pull_request_fields. Qed.
+Print Assumptions c17_api_start_pull_request.
+
+Theorem c17_api_start_pull_passes : forall b,
+  (exists r, pull_request b = Some r) <->
+  pb_url b = true /\ pb_timeout b <> JBad /\ pb_retry b <> JBad /\ pb_autostop b <> JBad /\ pb_mode b <> JBad.
+Proof. exact pull_request_passes. Qed.
+Print Assumptions c17_api_start_pull_passes.
+
+(* what reaches the relay rules is the event with exactly those values; a request that does not pass changes nothing *)
+Theorem c17_api_start_pull_event : forall s b rt,
+  api_event (AStartPull s b rt) =
+  match pull_request b with Some r => Some (EStartPull s (pr_retry r) (pr_autostop r) rt) | None => None end.
+Proof. exact api_start_pull_event. Qed.
+Print Assumptions c17_api_start_pull_event.
+
+Theorem c17_api_param_missing : forall fx cf st c, api_event c = None ->
+  api_step fx cf st c = (st, RCode code_param_missing RsNone None, []).
+Proof. exact api_param_missing_no_effect. Qed.
+Print Assumptions c17_api_param_missing.
+
+(* "stop immediately" given explicitly: the group gets 0, and with no consumer pullIfNeeded starts
+   nothing and says why *)
+Theorem c17_api_autostop_immediately : forall s nm t r m rt e g now,
+  api_event (AStartPull s (mk_pull_body true nm t r (JInt 0) m) rt) = Some e ->
+  (exists retry, e = EStartPull s retry 0 rt) /\
+  (pp_autostop (g_pp g) = 0%Z -> has_out g = false ->
+   snd (fst (pull_if_needed g now)) = false /\
+   (has_in g = false -> pp_pulling (g_pp g) = false -> pp_api (g_pp g) = true -> snd (pull_if_needed g now) = RsAutoStop)).
+Proof.
+  intros s nm t r m rt e g now H. split; [exact (api_autostop_reaches_group s nm t r m rt 0%Z e H)|].
+  exact (autostop_immediately_blocks_start g now).
+Qed.
+Print Assumptions c17_api_autostop_immediately.
+
+(* stop_relay_pull, kick_session, start_rtp_pub *)
+Theorem c17_api_other_requests : forall s t n,
+  api_event (AStopPull (Some s)) = Some (EStopPull s) /\ api_event (AStopPull None) = None /\
+  api_event (AKick (Some s) (Some t)) = Some (EKick s t) /\
+  api_event (AKick None (Some t)) = None /\ api_event (AKick (Some s) None) = None /\ api_event (AKick None None) = None /\
+  rtp_request JAbsent JAbsent JAbsent = Some (mk_rtp_req 0 60000 0) /\
+  (forall p tm f, rtp_request (JInt p) (JInt tm) (JInt f) = Some (mk_rtp_req p tm f)) /\
+  (forall p tm f, api_event (AStartRtpPub (Some s) n p tm f) =
+                  match rtp_request p tm f with Some _ => Some (EPsPub s n) | None => None end) /\
+  (forall p tm f, api_event (AStartRtpPub None n p tm f) = None).
+Proof. intros. repeat split. Qed.
+Print Assumptions c17_api_other_requests.
 
 (* non-vacuity: the start rule is satisfiable and refutable, the stop rule applies *)
 Example c17_nonvacuous :
